@@ -793,6 +793,28 @@ func genSetBoundaryC11(op string, vals []string) (cases []string) {
 	return cases
 }
 
+// genSetNearEqualC11: Equal on two sets of the same length that differ in exactly one
+// position (every length up to maxLen, every position), built directly and through a
+// clone + Delete + Add history; and on sets where one has one element more.
+func genSetNearEqualC11(op string, maxLen int) (cases []string) {
+	for m := 1; m <= maxLen; m++ {
+		a := make([]string, m)
+		for i := range a {
+			a[i] = strconv.Itoa(2 * i)
+		}
+		all := strings.Join(a, ";")
+		for i := 0; i < m; i++ {
+			b := append([]string{}, a...)
+			b[i] = strconv.Itoa(2*i + 1)
+			cases = append(cases,
+				fmt.Sprintf("%s 0n%s,1n%s,0e1,1e0,0e0", op, all, strings.Join(b, ";")),
+				fmt.Sprintf("%s 0n%s,0k2,2d%d,2a%d,0e2,2e0,2d%d,2a%d,0e2,2e0", op, all, 2*i, 2*i+1, 2*i+1, 2*i),
+				fmt.Sprintf("%s 0n%s,0k1,1d%d,0e1,1e0,1a%d,0e1,1a%d,0e1,1e0", op, all, 2*i, 2*i, 2*i+1))
+		}
+	}
+	return cases
+}
+
 func genC11(rng *rand.Rand, tier string) (cases []string) {
 	n := 8000
 	if tier == "thorough" {
@@ -803,6 +825,9 @@ func genC11(rng *rand.Rand, tier string) (cases []string) {
 	cases = append(cases, genSetBoundaryC11("C11.ms", []string{"1", "3", "5", "7"})...)
 	cases = append(cases, genSetBoundaryC11("C11.sssf", []string{"-inf", "1", "3", "inf"})...)
 	cases = append(cases, genSetBoundaryC11("C11.sssf", []string{"nan", "-inf", "2", "4"})...)
+	for _, op := range []string{"C11.sss", "C11.ms", "C11.sssf"} {
+		cases = append(cases, genSetNearEqualC11(op, 9)...)
+	}
 	if tier == "thorough" {
 		cases = append(cases, genRingExhaustiveC11(6)...)
 	} else {
